@@ -71,6 +71,10 @@ def stress_histories():
                     "itmd.t2_2.expand_itmd(klcd,once)", "expr.reduce_expr(itmds)"),
         "spin": req("expr.spatial(spin1,restricted)", "itmd.t2_2.allowed_spin_blocks"),
         "dummies": [{"op": "dummy.skew", "n": 200}, {"op": "sympy.clear_cache"}],
+        "codegen": req("code.generate_code(code3,einsum)", "code.optimize_contractions(code3)",
+                       "code.generate_code(contr2,libtensor)"),
+        "imports": req("expr.print_import_print(contr2)", "expr.simplify(big_simplify)",
+                       "expr.wicks(wick3)"),
         "aborted-energy": [{"op": "req", "t": "gs.mp.energy(2)",
                             "abort": {"kind": "kbi", "u": 0.55}}],
         "aborted-isr": [{"op": "req", "t": "isr.mp.pp.overlap_precursor(2,ph,ph,ia,jb)",
